@@ -130,7 +130,11 @@ def numeral_value(text):
             exp = exp[1:]
         if exp == b'' or any(c not in _DIG for c in exp):
             return None
-        v *= Fraction(10) ** (sign * int(exp))
+        e = sign * int(exp)
+        if abs(e) > 20000:
+            # beyond every float: the value is infinite, or zero (no 10 ** 10 ** 400 to compute)
+            return Fraction(10) ** 20000 if (e > 0 and v != 0) else Fraction(0)
+        v *= Fraction(10) ** e
     return v
 
 
